@@ -142,7 +142,8 @@ def mk_chain3(depth, layout, tokens=None):
 # Bounds of the cooperative watchdog for the packet elements (cycles to a handshake / to a delivery).  Only the
 # Dispatcher bound is backed by a Lean theorem (dispatcher_progress); the others are declared here, measured to be
 # tight on the unchanged tree, and enforced with the usual slack of 2 cycles.
-PK = dict(k_arb=(2, 2), k_disp=1, k_fifo=(1, None), k_fifo_buf=(1, None), k_pk=(1, 1), k_dpk=(1, None))
+PK = dict(k_arb=(2, 2), k_disp=1, k_fifo=(1, None), k_fifo_buf=(1, None), k_pk=(1, 1), k_dpk=(1, None),
+          k_pk_u=(1, 1))
 
 
 # header tables: name -> (byte, offset, width)
@@ -195,6 +196,8 @@ def mk_packet(kind, *a, **kw):
     if kind == "packetizer":
         Bb, H, f, sw = a
         inner = V.pk_packetizer(name, Bb, H, f, sw, **kw)
+        if H % Bb:
+            return V.PortC04Inst(inner, V.PacketizerUView(inner.coop_alpha, Bb, H, *PK["k_pk_u"]))
         return V.PortC04Inst(inner, V.SSView(inner.coop_alpha, *PK["k_pk"], last_idx=2))
     if kind == "depacketizer":
         Bb, H, f, sw = a
@@ -241,6 +244,20 @@ def packet_jobs(tier):
           mk_packet("packetizer", Bb, H, f, sw, name="Packetizer/" + tag, data_values=dv, hdr_values=hv))
         A(lambda Bb=Bb, H=H, f=f, sw=sw, dv=dv, tag=tag:
           mk_packet("depacketizer", Bb, H, f, sw, name="Depacketizer/" + tag, data_values=dv))
+    # header not a multiple of the beat, producers inside C16's `UOk` domain (see c04lib.PacketizerUView)
+    A(lambda: mk_packet("packetizer", 2, 3, H3, True, name="Packetizer/dw16/H3(unaligned)",
+                        data_values=[0x0100, 0x0001], hdr_values=hvals(H3, 3, (1, 6))))
+    A(lambda: mk_packet("depacketizer", 2, 3, H3, True, name="Depacketizer/dw16/H3(unaligned)",
+                        data_values=[0x0100, 0x0001] if quick else bit_per_byte(2)))
+    B(lambda: mk_packet("packetizer", 2, 3, H3, True, name="Packetizer/dw16/H3(unaligned)/random", alphabet=False))
+    B(lambda: mk_packet("packetizer", 4, 6, {"a": (0, 0, 16), "b": (2, 0, 32)}, True,
+                        name="Packetizer/dw32/H6(unaligned)", alphabet=False))
+    B(lambda: mk_packet("packetizer", 8, 11, {"a": (0, 0, 24), "b": (3, 0, 64)}, False,
+                        name="Packetizer/dw64/H11(unaligned)", alphabet=False))
+    B(lambda: mk_packet("depacketizer", 4, 6, {"a": (0, 0, 16), "b": (2, 0, 32)}, True,
+                        name="Depacketizer/dw32/H6(unaligned)", alphabet=False))
+    B(lambda: mk_packet("depacketizer", 8, 11, {"a": (0, 0, 24), "b": (3, 0, 64)}, False,
+                        name="Depacketizer/dw64/H11(unaligned)", alphabet=False))
     B(lambda: mk_packet("arbiter", 3, name="Arbiter(3)/8b", dwid=8, alphabet=False))
     B(lambda: mk_packet("arbiter", 5, name="Arbiter(5)/64b", dwid=64, alphabet=False))
     B(lambda: mk_packet("dispatcher", 3, name="Dispatcher(3)/8b", dwid=8, alphabet=False))
